@@ -47,7 +47,12 @@ impl HeapSize for Picky {
         let n = it.len();
         let first = it.next().map(|p| p.0 as usize).unwrap_or(0);
         let second = if n > 4 { it.next().map(|p| p.0 as usize).unwrap_or(0) } else { 0 };
-        first + second + it.fold(0usize, |a, p| a + p.0 as usize)
+        // an ExactSizeIterator knows how many items are LEFT at any time, and a user's override may rely on that: the
+        // remainder is pre-sized from len() and size_hint(); a wrong answer shows as a wrong sum
+        let (left, hint) = (it.len(), it.size_hint());
+        let rest: Vec<usize> = it.map(|p| p.0 as usize).collect();
+        let penalty = if rest.len() != left || hint != (rest.len(), Some(rest.len())) { 1_000_003 * (1 + left.abs_diff(rest.len())) } else { 0 };
+        first + second + rest.iter().sum::<usize>() + penalty
     }
 }
 impl Spec for Picky { fn spec_heap(&self) -> u128 { self.0 as u128 } }
